@@ -110,8 +110,7 @@ def run(ctx):
                 ctx.brk('correspondence', 'fd_derivative disagrees with Model/FdDerivative.v (windows, weights bit-exact; dot product within its rounding bound; guards)', descs[s + i])
     ctx.cov['traces_validated_against_impl'] = len(cases)
     ctx.cov['correspondence_disagreements'] = nbad
-    if ctx.broken or ctx.thorough:
-        search(ctx, ctx.n(200, 1500))
+    search(ctx, ctx.n(200, 1500) if (ctx.broken or ctx.thorough) else 40)
     ctx.assumptions += ['np.dot goes through BLAS: the model computes the dot product sequentially and the comparison allows 4*len*u*sum|w_i f_i|; everything else is bit-exact',
                         'grids shorter than 2*mm+2 (slices silently shrink in the source) are outside the property and outside the model',
                         '"up to conditioning-scaled rounding" is explored with exact rational polynomials, not proved']
